@@ -72,9 +72,9 @@ def gen_cases(rng, tier):
         r, b = l + rng.choice([1.0, 1.4, 2.5, 10.0, 10.4]), t + rng.choice([1.0, 1.6, 3.0, 7.3])
         cases.append(("fill_px", [0, 0, 2, w, h, 0, w, 125, 0] + list(IDENT) + [5, f2b(l), f2b(t), f2b(r), f2b(b)]))
     # tile seam: pixmaps wider / taller than 8191
-    for i in range(2 if tier == "quick" else 30):
+    for i in range(4 if tier == "quick" else 32):
         ops = rand_path_ops(rng, 8191 + rng.uniform(-6, 6), 10, 9, curves=(i % 2 == 1))
-        cases.append(("fill_px", [i % 2, 0, 0, 8230, 20, 8160, 8225, 750 if i % 2 else 125, 0] + list(IDENT) + ops))
+        cases.append(("fill_px", [i % 2, 0, (i // 2) % 2, 8230, 20, 8160, 8225, 750 if i % 2 else 125, 0] + list(IDENT) + ops))
     # tiled in both directions (8200 x 8200, four tiles): shapes in the top rows and across the horizontal seam of the same
     # tile column; the window of checked columns lies in the left tile column or across the vertical seam
     for i in range(1 if tier == "quick" else 6):
